@@ -154,7 +154,7 @@ func (e *Env) Create(rs *Records, p CreatePlan) (c *Created, err error) {
 					continue
 				}
 				key := l.DBName
-				if p.WithModel() && p.KeysByName && len(l.Path) == 1 {
+				if p.WithModel() && p.KeysByName && len(l.Path) == 1 && !e.M.nameIsColumn(l) {
 					key = l.Spec.Name
 				}
 				if fv, ok := l.Get(v); ok {
